@@ -411,8 +411,24 @@ WEIRD_STRINGS = ["42", "1.5", "-7", "inf", "nan", "3.0", " 5", "http://ex.org/n0
                  "[]", "<a>", "a@b", "1e3", "1_0", "é", "٣", "0x10", ".5", "5.", "+"]
 
 
+def _other_schemes(ts, r):
+    """IRI nodes are not only http(s): rename some value nodes (urn:, mailto:) and some described nodes (urn:)"""
+    names = sorted({x[1] for s, p, o in ts for x in (s, o) if x[0] == "I" and p != RDF_TYPE}
+                   | {s[1] for s, p, o in ts if s[0] == "I"})
+    ren = {}
+    for n in names:
+        local = n.rsplit("/", 1)[-1]
+        k = r.random()
+        if local.startswith("u") and k < 0.45:
+            ren[n] = ("urn:ex:%s" % local) if k < 0.25 else ("mailto:%s@ex.org" % local)
+        elif local.startswith("n") and k < 0.15:
+            ren[n] = "urn:ex:%s" % local
+    f = lambda x: ("I", ren[x[1]]) if x[0] == "I" and x[1] in ren else x
+    return [(f(s), p, f(o) if p != RDF_TYPE else o) for s, p, o in ts]
+
+
 def gen_case_graph(r, in_domain):
-    ts = pipe.gen_graph(r, general=r.random() < 0.7, max_nodes=6)
+    ts = _other_schemes(pipe.gen_graph(r, general=r.random() < 0.7, max_nodes=6), r)
     out = []
     seen = set()
     for s, p, o in ts:
